@@ -1,4 +1,5 @@
 import SgModel.Lemmas.MvccObs
+import SgModel.Lemmas.MvccRelRead
 /-!
 # C07 — versioned reads are stable, duplicate-free and respect deletion
 
@@ -16,10 +17,19 @@ Full statement of the property (kept here because only part of it holds for the 
 
 What is proved: (a)–(d) for **nodes** at full strength for every history in which the node is
 not deleted afterwards (`C07_node_read_past_stable`, `C07_node_read_as_of`,
-`C07_node_history_stable`, `C07_scan_each_live_once`, `C07_deleted_unreadable_now`); for
-**relationships** only `C07_partial`: (b) for reads that hit a logged snapshot, and for every
-step that is not a property write to / a deletion of that relationship.  What is *not*
-provable because the code violates it (known findings, reproduced on the real code):
+`C07_node_history_stable`, `C07_scan_each_live_once`, `C07_deleted_unreadable_now`).
+
+For **relationships** the read is characterised exactly for every history
+(`C07_rel_read_characterised`: newest logged snapshot `≤ v`, else the current map stamped 1) and,
+with the invariants of reachable states discharged (`RelInv`, `Lemmas/MvccRel.lean`):
+(a) at the current version and for every relationship not written after `v`
+(`C07_rel_read_current`, `C07_rel_unmodified_since`, `C07_rel_write_visible_now`);
+(b) for every read that has a logged snapshot `≤ v`, one step and along every history with any
+number of further writes, creations, other deletions and commits (`C07_rel_read_anchored`,
+`C07_rel_step_stable`, `C07_rel_history_stable`), and for every read whatsoever under operations
+that do not write or delete the relationship (`C07_rel_record_frame`).
+What is *not* provable because the code violates it (known findings, reproduced on the real
+code; `C07_rel_unanchored_reads_current_partial` states exactly what the code returns instead):
 a relationship's creation version and its properties before the first logged write are not
 recorded (`get_edge_at_version` falls back to the live map and version 1), and the history of a
 deleted node or relationship is dropped.  The corresponding `…_counterexample_…` theorems
@@ -332,6 +342,130 @@ theorem C07_model_refines_spec_partial (s : State) (hinv : Inv s) (op : Op) (o o
   have hle := step_cur_le s op
   rw [nodeRead_obs false (step s op).1 o' i v hi (by omega), nodeRead_obs false s o i v hi (by omega)]
   exact C07_node_read_past_stable s hinv op (i + 1) v hvlt (hop (i + 1))
+
+/-! ### Relationships: exactly what `get_edge_at_version` guarantees, for every history
+
+The hypotheses of `C07_partial` / `C07_partial_frame` are discharged below as invariants of every
+state the model can reach (`RelInv`: the newest log entry carries the live property map,
+`current_version ≥ 1`, the id allocator never hands out the id of a live relationship), and the
+read is characterised exactly.  What remains outside (`_partial` names) is what the code does not
+record — see the `C07_counterexample_rel_…` witnesses. -/
+
+/-- **Exact characterisation, every history, every relationship, every version.**
+`get_edge_at_version(e, v)` is: nothing for a deleted / never created relationship; otherwise the
+newest logged snapshot `≤ v` (its version and *its* properties); otherwise — no snapshot that
+old — the **current** property map stamped version 1 (nothing for `v = 0`). -/
+theorem C07_rel_read_characterised (ops : List Op) (e v : Nat) :
+    getEdgeAt (exec ops) e v = edgeAtSpec ((exec ops).edges e) v :=
+  getEdgeAt_eq_spec _ (relInv_exec ops) e v
+
+/-- **(a) at the current version, full strength.**  After every history, the read of a live
+relationship at the current version — and at every later one — is its current property map. -/
+theorem C07_rel_read_current (ops : List Op) (e v : Nat)
+    (hlive : ((exec ops).edges e).live = true) (hv : (exec ops).cur ≤ v) :
+    getEdgeAt (exec ops) e v = getEdge (exec ops) e
+    ∧ ∃ ver, getEdge (exec ops) e = some (ver, ((exec ops).edges e).props) :=
+  rel_unmodified_since _ (inv_exec ops) (relInv_exec ops) e v hlive
+    (Nat.le_trans (relInv_exec ops).curPos hv)
+    (fun x hx => Nat.le_trans (((inv_exec ops).logs e).2 x hx) hv)
+
+/-- **(a) for relationships not modified after `v`, full strength.**  After every history, if no
+logged write of live relationship `e` is newer than `v ≥ 1`, the read at `v` is the current
+state (so: a relationship never written after `v` reads at `v` what it reads now). -/
+theorem C07_rel_unmodified_since (ops : List Op) (e v : Nat)
+    (hlive : ((exec ops).edges e).live = true) (hv : 1 ≤ v)
+    (hall : ∀ x ∈ ((exec ops).edges e).log, x.version ≤ v) :
+    getEdgeAt (exec ops) e v = getEdge (exec ops) e
+    ∧ ∃ ver, getEdge (exec ops) e = some (ver, ((exec ops).edges e).props) :=
+  rel_unmodified_since _ (inv_exec ops) (relInv_exec ops) e v hlive hv hall
+
+/-- a write is visible at the current version: read-your-write for `set_edge_property` -/
+theorem C07_rel_write_visible_now (ops : List Op) (e k : Nat) (val : Int)
+    (hlive : ((exec ops).edges e).live = true) :
+    ∃ ver, getEdge (exec (ops ++ [.setEdgeProp e k val])) e
+      = some (ver, setKey ((exec ops).edges e).props k val) := by
+  have hx : exec (ops ++ [.setEdgeProp e k val]) = (step (exec ops) (.setEdgeProp e k val)).1 := by
+    simp [exec, List.foldl_append]
+  have hrec := step_edges_write false (exec ops) e k val hlive
+  have hlive' : ((exec (ops ++ [.setEdgeProp e k val])).edges e).live = true := by
+    rw [hx]; show ((stepG false (exec ops) (.setEdgeProp e k val)).1.edges e).live = true
+    rw [hrec]; exact hlive
+  obtain ⟨ver, h⟩ := (C07_rel_read_current (ops ++ [.setEdgeProp e k val]) e _ hlive' (Nat.le_refl _)).2
+  refine ⟨ver, ?_⟩
+  rw [h, hx]
+  show some (ver, ((stepG false (exec ops) (.setEdgeProp e k val)).1.edges e).props) = _
+  rw [hrec]; rfl
+
+/-- **Anchored reads.**  After every history, when the log of live relationship `e` holds a
+snapshot `≤ v`, the read at `v` is the newest such snapshot — version and properties as logged,
+independent of the current version and of the live map. -/
+theorem C07_rel_read_anchored (ops : List Op) (e v : Nat) (ent : ELog)
+    (hlive : ((exec ops).edges e).live = true)
+    (hf : ((exec ops).edges e).log.reverse.find? (fun x => decide (x.version ≤ v)) = some ent) :
+    getEdgeAt (exec ops) e v = some (ent.version, ent.props) :=
+  rel_read_anchored _ (relInv_exec ops) e v ent hlive hf
+
+/-- **What the code does when no snapshot is old enough** (the known finding, stated exactly):
+the read at `v ≥ 1` is the *current* property map with version 1 — whatever the relationship held,
+and whether or not it existed, at `v`. -/
+theorem C07_rel_unanchored_reads_current_partial (ops : List Op) (e v : Nat)
+    (hlive : ((exec ops).edges e).live = true) (hv : 1 ≤ v)
+    (hnone : ∀ x ∈ ((exec ops).edges e).log, v < x.version) :
+    getEdgeAt (exec ops) e v = some (1, ((exec ops).edges e).props) :=
+  rel_read_unanchored _ (relInv_exec ops) e v hlive hv hnone
+
+/-- **No operation disturbs a relationship it does not delete or write**, in any reachable
+state: node and label writes, creations (a creation never reuses the id of a live relationship),
+deletions of other relationships, deletions of nodes that are not its endpoints (the cascade
+reaches incident relationships only), property writes to other relationships and all transaction
+bookkeeping leave endpoints, property map and version log of `e` untouched. -/
+theorem C07_rel_record_frame (ops : List Op) (op : Op) (e : Nat)
+    (hlive : ((exec ops).edges e).live = true)
+    (hop : touchesRel e ((exec ops).edges e).src ((exec ops).edges e).tgt op = false)
+    (hw : writesRel e op = false) :
+    (step (exec ops) op).1.edges e = (exec ops).edges e :=
+  step_edges_frame false _ (relInv_exec ops) op e hlive hop hw
+
+/-- **(b) one step, hypotheses discharged.**  In every reachable state, for every operation
+that does not delete relationship `e` (directly, through an endpoint, or by `gc`): the read at
+*every* `v` is unchanged when the operation is not a property write to `e`; and when it is, the
+read at every `v` below the current version that has a logged snapshot `≤ v` is unchanged. -/
+theorem C07_rel_step_stable (ops : List Op) (op : Op) (e v : Nat)
+    (hlive : ((exec ops).edges e).live = true)
+    (hop : touchesRel e ((exec ops).edges e).src ((exec ops).edges e).tgt op = false)
+    (hanch : writesRel e op = true →
+      v < (exec ops).cur ∧ ∃ x ∈ ((exec ops).edges e).log, x.version ≤ v) :
+    getEdgeAt (step (exec ops) op).1 e v = getEdgeAt (exec ops) e v :=
+  rel_step_stable false _ (relInv_exec ops) op e v hlive hop hanch
+
+/-- **(b) along every history.**  Once live relationship `e` has a logged snapshot `≤ v` with `v`
+below the current version, every continuation that does not delete `e`, delete one of its
+endpoints or collect garbage — any number of further property writes to `e`, creations, other
+deletions, commits, bumps — leaves the read at `v` equal to that snapshot. -/
+theorem C07_rel_history_stable (pre post : List Op) (e v : Nat) (ent : ELog)
+    (hlive : ((exec pre).edges e).live = true)
+    (hf : ((exec pre).edges e).log.reverse.find? (fun x => decide (x.version ≤ v)) = some ent)
+    (hv : v < (exec pre).cur)
+    (hpost : ∀ op ∈ post, touchesRel e ((exec pre).edges e).src ((exec pre).edges e).tgt op = false) :
+    getEdgeAt (exec (pre ++ post)) e v = getEdgeAt (exec pre) e v
+    ∧ getEdgeAt (exec (pre ++ post)) e v = some (ent.version, ent.props) := by
+  have hx : exec (pre ++ post) = post.foldl (fun s op => (stepG false s op).1) (exec pre) := by
+    simp [exec, step, List.foldl_append]
+  have h0 : Anchored (exec pre) e ((exec pre).edges e).src ((exec pre).edges e).tgt v ent :=
+    ⟨hlive, rfl, rfl, hf, hv⟩
+  obtain ⟨h1, r1⟩ := anchored_foldl false post hpost (relInv_exec pre) h0
+  have hpost_read := rel_read_anchored _ r1 e v ent h1.live h1.find
+  rw [hx, hpost_read, rel_read_anchored _ (relInv_exec pre) e v ent hlive hf]
+  exact ⟨rfl, rfl⟩
+
+/-- the hypotheses of `C07_rel_history_stable` are satisfiable and its conclusion is not
+trivial: snapshot `{0: 7}` logged at version 1, two later writes at versions 3 and 4, a second
+relationship created and deleted in between — the read at version 2 is still `{0: 7}` -/
+example :
+    let pre := [Op.createNode 1, .createNode 1, .createEdge 1 2 [], .setEdgeProp 1 0 7, .txn .bump, .txn .bump]
+    let post := [Op.setEdgeProp 1 0 8, .createEdge 2 1 [], .txn .bump, .setEdgeProp 1 0 9, .deleteEdge 2]
+    getEdgeAt (exec (pre ++ post)) 1 2 = some (1, [(0, 7)])
+    ∧ getEdge (exec (pre ++ post)) 1 = some (4, [(0, 9)]) := by decide
 
 /-! ### The pinned tree violated the property (witnesses replayed by the corpus) -/
 
